@@ -3,9 +3,13 @@
 package core
 
 import (
+	"bytes"
 	"fmt"
+	"os"
 	"sort"
+	"strconv"
 	"strings"
+	"syscall"
 	"testing"
 	"time"
 
@@ -41,8 +45,64 @@ const (
 	c20ShortClose = 200 * time.Millisecond
 	c20SyncWait   = 6 * time.Second  // for effects that do not depend on a timer
 	c20TimerSlack = 12 * time.Second // beyond the longest short timer
-	c20LongCmd    = "sleep 600"
+	c20LongCmd    = "sleep 611" // distinctive, so that leaked commands can be recognised and killed
 )
+
+// c20KillLeakedHooks kills the children of this test process that are C20 hook commands. A start hook that is
+// never stopped (the very defect this check looks for) leaves its command running, and the command pool waits
+// for it when it is closed: without this the harness would hang for the lifetime of the command.
+func c20KillLeakedHooks() int {
+	me := os.Getpid()
+	ents, _ := os.ReadDir("/proc")
+	n := 0
+	for _, e := range ents {
+		pid, err := strconv.Atoi(e.Name())
+		if err != nil {
+			continue
+		}
+		st, err := os.ReadFile("/proc/" + e.Name() + "/stat")
+		if err != nil {
+			continue
+		}
+		i := bytes.LastIndexByte(st, ')')
+		if i < 0 {
+			continue
+		}
+		f := strings.Fields(string(st[i+1:]))
+		if len(f) < 2 {
+			continue
+		}
+		if ppid, _ := strconv.Atoi(f[1]); ppid != me {
+			continue
+		}
+		cl, _ := os.ReadFile("/proc/" + e.Name() + "/cmdline")
+		if strings.Contains(string(cl), "sleep\x00611") || strings.Contains(string(cl), "sleep 611") {
+			syscall.Kill(pid, syscall.SIGKILL) //nolint:errcheck
+			n++
+		}
+	}
+	return n
+}
+
+// c20CloseBounded runs closeFn (which waits for the command pool); if it does not return within grace the
+// leaked hook commands are killed so that it can. Returns the number of commands that had to be killed.
+func c20CloseBounded(closeFn func(), grace time.Duration) int {
+	done := make(chan struct{})
+	go func() {
+		closeFn()
+		close(done)
+	}()
+	killed := 0
+	for {
+		select {
+		case <-done:
+			return killed
+		case <-time.After(grace):
+			killed += c20KillLeakedHooks()
+			grace = 2 * time.Second
+		}
+	}
+}
 
 // pair indexes
 const (
@@ -368,7 +428,7 @@ func TestVerifC20PathPairs(t *testing.T) {
 		var allReqs []*c20Req
 		defer func() {
 			if !pmClosed {
-				pm.Close()
+				c20CloseBounded(pm.Close, 3*time.Second)
 			}
 			for _, q := range allReqs {
 				select {
@@ -827,7 +887,7 @@ func TestVerifC20PathPairs(t *testing.T) {
 
 		// ---- shutdown with whatever is open
 		hist = append(hist, "shutdown")
-		pm.Close()
+		c20CloseBounded(pm.Close, 8*time.Second)
 		pmClosed = true
 		for _, p := range paths {
 			if p.exists {
